@@ -173,29 +173,68 @@ func (o c12op) run(st *c12state) (res string, err error) {
 		}
 		return fmt.Sprint(t2.Size()), nil
 	case "cursor":
-		cur, err := st.t.Cursor(e.Ctx)
-		if err != nil {
-			return "", err
-		}
-		if err = cur.Ceil(e.Ctx, o.key); err != nil {
-			return "", err
-		}
-		k1, _, _ := cur.Get()
-		if err = cur.Forward(e.Ctx); err != nil {
-			return "", err
-		}
-		k2, _, _ := cur.Get()
-		if err = cur.Backward(e.Ctx); err != nil {
-			return "", err
-		}
-		if err = cur.Backward(e.Ctx); err != nil {
-			return "", err
-		}
-		k3, _, _ := cur.Get()
-		return fmt.Sprint(k1, k2, k3), nil
+		return o.runCursor(st, nil)
 	}
 	return "", errors.New("unknown op")
 }
+
+// runCursor opens a cursor and performs Ceil, Forward, Backward, Backward.
+// With onErr == nil the first failing call ends the run. Otherwise a failing
+// call is followed by onErr() (which clears the injected fault) and THE SAME
+// CALL ON THE SAME CURSOR is retried, as the property demands of navigation
+// calls; the result then reflects the positions after the retried calls.
+func (o c12op) runCursor(st *c12state, onErr func()) (string, error) {
+	e := st.env.e
+	var firstErr error
+	try := func(f func() error) error {
+		err := f()
+		if err == nil || onErr == nil {
+			return err
+		}
+		if firstErr == nil {
+			firstErr = err
+		}
+		onErr()
+		if err2 := f(); err2 != nil {
+			return fmt.Errorf("retry of the same cursor call failed again: %w", err2)
+		}
+		return nil
+	}
+	var cur *mast.Cursor
+	if err := try(func() error {
+		var err error
+		cur, err = st.t.Cursor(e.Ctx)
+		return err
+	}); err != nil {
+		return "", err
+	}
+	if err := try(func() error { return cur.Ceil(e.Ctx, o.key) }); err != nil {
+		return "", err
+	}
+	k1, _, _ := cur.Get()
+	if err := try(func() error { return cur.Forward(e.Ctx) }); err != nil {
+		return "", err
+	}
+	k2, _, _ := cur.Get()
+	if err := try(func() error { return cur.Backward(e.Ctx) }); err != nil {
+		return "", err
+	}
+	if err := try(func() error { return cur.Backward(e.Ctx) }); err != nil {
+		return "", err
+	}
+	k3, _, _ := cur.Get()
+	res := fmt.Sprint(k1, k2, k3)
+	if firstErr != nil {
+		return res, &retriedErr{first: firstErr}
+	}
+	return res, nil
+}
+
+// retriedErr marks a cursor run in which a call failed and was retried in place.
+type retriedErr struct{ first error }
+
+func (r *retriedErr) Error() string { return r.first.Error() }
+func (r *retriedErr) Unwrap() error { return r.first }
 
 var c12ops = []string{"insert_new", "insert_new", "update", "delete", "delete", "get", "iter", "seekiter", "diffiter", "difflinks", "clone", "cursor"}
 
@@ -360,14 +399,24 @@ func runC12(c *fw.C) {
 			c.Obs("fault_pairs_run", 1)
 		}
 		var opErr error
+		var inPlaceRes string
 		panicked := false
+		clearFaults := func() {
+			s2.env.loadAt, s2.env.loadAt2 = 0, 0
+			s2.env.cmpCtr.FailAt, s2.env.cmpCtr.FailAt2 = 0, 0
+			s2.env.marCtr.FailAt, s2.env.marCtr.FailAt2 = 0, 0
+		}
 		func() {
 			defer func() {
 				if rec := recover(); rec != nil {
 					panicked = true
 				}
 			}()
-			_, opErr = op.run(s2)
+			if opKind == "cursor" {
+				inPlaceRes, opErr = op.runCursor(s2, clearFaults)
+			} else {
+				_, opErr = op.run(s2)
+			}
 		}()
 		hit := s2.env.loadHit || s2.env.cmpCtr.Hit > 0 || s2.env.marCtr.Hit > 0
 		// clear the fault
@@ -415,6 +464,16 @@ func runC12(c *fw.C) {
 		}
 		// 2. retry succeeds with the normal result
 		c.Obs("retries_checked", 1)
+		if opKind == "cursor" {
+			// the failing navigation call was retried on the same cursor
+			var re *retriedErr
+			if !errors.As(opErr, &re) {
+				c.Violation("C12.retry_succeeds", ctx, "%s; %v", desc, opErr)
+			} else if inPlaceRes != normal {
+				c.Violation("C12.retry_succeeds", ctx, "%s; the failing cursor call was retried on the same cursor with the fault cleared, and the walk then visited %q where the fault-free walk visits %q", desc, inPlaceRes, normal)
+			}
+			continue
+		}
 		res, rerr := op.run(s2)
 		if rerr != nil {
 			c.Violation("C12.retry_succeeds", ctx, "%s; retried with the fault cleared it failed again: %v", desc, rerr)
